@@ -47,15 +47,20 @@ def reduce_to_contemporaneous(ts):
     """
     samples = ts.samples()
     contmpr_samples = samples[ts.nodes_time[samples] == 0]
-    return ts.simplify(
+    tables = ts.dump_tables()
+    # Only the topology of the result is used, so drop the information that
+    # simplify cannot process (non-empty edge metadata, migration records)
+    tables.edges.drop_metadata()
+    tables.migrations.clear()
+    node_map = tables.simplify(
         contmpr_samples,
-        map_nodes=True,
         keep_unary=True,
         filter_populations=False,
         filter_sites=False,
         record_provenance=False,
         filter_individuals=False,
     )
+    return tables.tree_sequence(), node_map
 
 
 def preprocess_ts(
